@@ -3,6 +3,7 @@ C16 — Dates, times, durations and ranges: exact text round trip and exact arit
 Property theorems only (helper lemmas: KlogV/Lemmas/Values.lean).
 -/
 import KlogV.Lemmas.Values
+import KlogV.Props.Rx.Values
 namespace KlogV.C16
 
 /-! ### Times -/
